@@ -47,3 +47,18 @@ Example c02_lists_example :
   [LL [42] [LI [42] 1 [LL [42;42;42] [LI [42;42;42] 2 []]; LL [42;42] [LI [42;42] 3 []]]];
    LL [35] [LI [35] 4 []]; LL [42;42] [LI [42;42] 5 []]].
 Proof. vm_compute. reflexivity. Qed.
+
+(* BEGIN PINS (tools/repin.py) *)
+From WTP Require Import Gen.GenPins.
+Module Pins.
+Import String.
+(* The models of this property were transcribed from: parser.py:list_fn, parser.py:pop_until_nth_list, parser.py:subtitle_start_fn, parser.py:subtitle_end_fn, parser.py:hline_fn.
+   Gen/GenPins.v holds the digests of these functions in the current source (translate/pins.py: syntax tree without
+   docstrings, comments and layout).  A different digest means that the model is no longer known to describe the
+   code; the check then reports the broken tie and looks for a failing input. *)
+Theorem c02_models_describe_the_current_source :
+  (pin_list_fn, pin_pop_until_nth_list, pin_subtitle_start_fn, pin_subtitle_end_fn, pin_hline_fn) = ("59381a14be7b68b2", "46b798dce11967a7", "d8702a868478747b", "0de3e9299c10db36", "f87337d8237c200b")%string.
+Proof. reflexivity. Qed.
+Print Assumptions c02_models_describe_the_current_source.
+End Pins.
+(* END PINS *)
